@@ -115,4 +115,45 @@ def standin_masking(tier, seed):
                 bound=dict(space="model kinds x fills {0,1e30,NaN,inf} x paddings {0,3}", exhaustive=True, seed=seed))
 
 
-STANDINS = [standin_masking]
+def standin_initialisation(tier, seed):
+    """the parameters a model is initialised with (the start of every fit) do not depend on what is stored at masked positions"""
+    import leaspy.models  # noqa
+    from leaspy.models import model_factory
+    from leaspy.io.data import Data, Dataset
+    violations, evals, distinct, samples = [], 0, set(), []
+    scalar = ("logistic", dict(source_dimension=1, dimension=3, obs_models="gaussian-scalar"), 3)
+    kinds = [MODEL_KINDS[0], scalar, MODEL_KINDS[2]] + (list(MODEL_KINDS[1:2]) + list(MODEL_KINDS[3:]) if tier != "quick" else [])
+    for k_i, (kind, kw, n_ft) in enumerate(kinds):
+        df = cohort(seed + 11 + k_i, n_ind=7, n_ft=n_ft, missing=0.3)
+        ds = Dataset(Data.from_dataframe(df))
+
+        def init_params(dataset):
+            m = model_factory(kind, **kw)
+            with quiet():
+                m.initialize(dataset)
+            return {k: torch.as_tensor(v).clone() for k, v in m.parameters.items()}
+        ref = init_params(ds)
+        for fill in (0.9, -3.0, 1e6, float("nan"), float("inf")):
+            ds2 = copy.copy(ds)
+            ds2.values = torch.where(ds.mask.bool(), ds.values, torch.full_like(ds.values, fill))
+            try:
+                got = init_params(ds2)
+            except Exception as e:
+                violations.append(dict(key=f"{kind} {kw}: initialisation fails with {fill} stored under the mask: {type(e).__name__}: {str(e)[:80]}"))
+                break
+            evals += 1
+            distinct.add((kind, str(kw), str(fill)))
+            bad = [k for k in ref if not (torch.isfinite(got[k]).all() and same_value(got[k], ref[k], exact=False, tol=1e-5))]
+            if bad:
+                violations.append(dict(key=f"{kind} {kw}: initial value of {bad[0]} changes (or is not finite) with {fill} stored under the mask",
+                                       reference=ref[bad[0]].reshape(-1).tolist()[:6], got=got[bad[0]].reshape(-1).tolist()[:6]))
+                break
+        samples.append(dict(kind=kind, hyper=str(kw), parameters=sorted(ref)))
+    return dict(evaluations=evals, distinct_nontrivial=len(distinct),
+                rule="one evaluation = one model initialised on a dataset whose masked positions hold a given fill value, every initial "
+                     "parameter compared with the initialisation on the clean dataset",
+                samples=samples[:2], violations=violations[:60],
+                bound=dict(space="model kinds x fills {0.9,-3,1e6,NaN,inf}", exhaustive=True, seed=seed))
+
+
+STANDINS = [standin_masking, standin_initialisation]
